@@ -19,7 +19,7 @@ func runC19(r *Run) {
 	r.rule("C19.R2", "nonce: exact-match rejection, nonce+1 stored, every message; the execution does not take back what the ante handler advanced", 5)
 	r.rule("C19.R3", "revert containment in ApplyTransaction", 6)
 	r.rule("C19.R4", "refund of unused gas: always, at the effective price, fee collector -> sender", 6)
-	r.rule("C19.R5", "gas used = max(minimum, raw - refund), fixed afterwards", 5)
+	r.rule("C19.R5", "gas used = max(minimum rounded up, raw - refund), fixed afterwards", 6)
 	r.rule("C19.R6", "fee deduction in the ante handler, block gas limit, and the balance-versus-cost check in every execution mode", 8)
 	r.rule("C19.R7", "tx-hash context value precedes EVM construction", 1)
 	r.rule("C19.R8", "the state-DB commit writes every touched account's balance to the bank: SetAccount calls SetBalance with the account's balance unconditionally and returns its error; SetBalance mints a positive and burns a negative difference", 3)
@@ -385,20 +385,27 @@ func runC19(r *Run) {
 		if gasUsedDef == nil || gasUsedObj == nil {
 			r.bad("C19.R5", "gasused|max", v.pos(v.Decl), "gas used = max(minimum, usage)", "no MaxDec(minimumGasUsed, usage) in ApplyMessageWithConfig")
 		} else {
-			okMin := false
+			okMin, okCeil := false, false
 			for _, a := range gasUsedDefArgs(gasUsedDef) {
 				for _, d := range v.resolveDefs(a, 0) {
+					// the product, rounded up to a whole gas unit: (...).Mul(multiplier).Ceil()
+					ceil := false
+					if recv0, nm0, args0, isM0 := methodCall(d); isM0 && nm0 == "Ceil" && len(args0) == 0 {
+						d, ceil = stripParens(recv0), true
+					}
 					recv, nm, args, isM := methodCall(d)
 					if isM && nm == "Mul" && len(args) == 1 && resolvesToCallV(v, args[0], "GetMinGasMultiplier") {
 						for _, d2 := range v.resolveDefs(recv, 0) {
 							if strings.Contains(exprString(d2), ".Gas()") {
 								okMin = true
+								okCeil = ceil
 							}
 						}
 					}
 				}
 			}
 			r.check(okMin, "C19.R5", "gasused|minimum", v.pos(gasUsedDef), "the minimum is gas limit x the minimum-gas multiplier", "the first operand of the max is not Dec(msg.Gas()).Mul(GetMinGasMultiplier(ctx))")
+			r.check(okMin && okCeil, "C19.R5", "gasused|minimum-rounded-up", v.pos(gasUsedDef), "the minimum is rounded up to a whole gas unit before the max (the later truncation cannot take the charged gas below it)", "the product gas limit x multiplier enters the max without .Ceil(): for an odd gas limit the truncated result (0.5 x 100001 -> 50000) is below the configured minimum")
 			// the refund counter is subtracted from the raw usage before the max
 			okRefund := false
 			if tmpUsedObj != nil {
